@@ -108,6 +108,143 @@ def mutate_text(rng, text):
     return "".join(toks)
 
 
+VS_IMPORTS = """From Coq Require Import NArith List Bool. Import ListNotations.
+From WV Require Import C22.VScript.
+Open Scope N_scope.
+Definition em (m : matcher) : N * list N := match m with MExact t => (0, t) | MEscaped t => (1, t) | MStar t => (2, t) | MNonStar t => (3, t) | MAll => (4, []) end.
+Definition ep (p : pm) : N * list (N * list N) := match p with Single m => (0, [em m]) | Multiple l => (1, map em l) | Cxx l => (2, map em l) end.
+Definition eb (b : body) := (map ep (globals b), map ep (locals b)).
+Definition ev (v : version) := (vname v, match vparent v with Some k => N.of_nat (S k) | None => 0 end, eb (vbody v)).
+Definition any (_ : list N) := true.
+Definition vs (input : list N) :=
+  match parse_version_script any input with
+  | Ok (Simple b) => (0, [([], 0, eb b)])
+  | Ok (Versions l) => (1, map ev l)
+  | Err => (2, [])
+  | Fuel => (3, [])
+  end.
+Definition el (input : list N) :=
+  match parse_export_list any input with
+  | Ok l => (0, map ep l)
+  | Err => (2, [])
+  | Fuel => (3, [])
+  end.
+"""
+
+
+def _hx(t):
+    return "-" if not t else bytes(t).hex()
+
+
+def _rules(tag, pms):
+    """the hook's rendering of a MatchRules built by pushing the parsed matchers in order"""
+    out = []
+    for kind, sel in (("general", (0, 1)), ("cxx", (2,))):
+        exact, esc, star, non, allm = set(), set(), [], [], 0
+        for k, ms in pms:
+            if k in sel:
+                for mk, t in ms:
+                    if mk == 0:
+                        exact.add(_hx(t))
+                    elif mk == 1:
+                        esc.add(_hx(t))
+                    elif mk == 2:
+                        star.append(_hx(t))
+                    elif mk == 3:
+                        non.append(_hx(t))
+                    else:
+                        allm = 1
+        out.append(f"{tag} {kind} x={','.join(sorted(exact))} e={','.join(sorted(esc))} s={','.join(star)} n={','.join(non)} a={allm}")
+    return out
+
+
+def render_vs(v):
+    tag, versions = v
+    if tag >= 2:
+        return "E" if tag == 2 else "FUEL"
+    lines = []
+    if tag == 0:
+        (name, parent, (g, l)) = versions[0]
+        rust = any(k == 0 and ms[0][0] == 4 for k, ms in l) and all(k == 0 and ms[0][0] == 0 for k, ms in g)
+        if rust:
+            return ("R " + " ".join(_hx(ms[0][1]) for k, ms in g)).rstrip()
+        versions = [([], 0, (g, l))]
+    else:
+        versions = [([], 0, ([], []))] + list(versions)
+    for name, parent, (g, l) in versions:
+        lines.append(f"v {_hx(name)} {'-' if parent == 0 else parent - 1}")
+        lines += _rules("g", g) + _rules("l", l)
+    return "|".join(lines)
+
+
+def render_el(v):
+    tag, pms = v
+    if tag >= 2:
+        return "E" if tag == 2 else "FUEL"
+    return "|".join(_rules("x", pms))
+
+
+VS_WORDS = ["foo", "bar", "ns::f", "_Z3fooi", "a", "", "x y", "V1", "V2", "VER_1", "b*", "*", "?x", "a\\*b", "\"q\"", "\"a b\"", "\"", "*c*", "[ab]c", "[^a]b"]
+VS_PUNCT = ["{", "}", ";", "};", "} ;", "global:", "local:", "extern \"C\" {", "extern \"C++\" {", "extern \"D\" {", "extern ", " ", "\n", "\t", "# c\n", "#", "/* c */", "/*", "*/", "/*/", ":", "(", ")"]
+
+
+def gen_vs(rng, export_list=False):
+    """mostly well-formed version scripts / export lists with noise; every syntactic form of the grammar"""
+    def pats(n, allow_extern=True):
+        out = []
+        for _ in range(n):
+            r = rng.random()
+            if allow_extern and r < 0.2:
+                inner = pats(rng.randrange(0, 4), False)
+                last = rng.random() < 0.5 and inner
+                body = " ".join(inner)
+                if last and body.endswith(";"):
+                    body = body[:-1]             # the last symbol of an extern block may omit its semicolon
+                lang = rng.choice(['"C"', '"C++"', '"C++"', '"D"'])
+                sep = rng.choice([" ", "", "\n"])
+                out.append("extern " + lang + sep + "{ " + body + " };")
+            else:
+                out.append(rng.choice(VS_WORDS) + rng.choice(["", "", " ", "\n"]) + ";")
+        return out
+
+    def section():
+        parts = []
+        for _ in range(rng.randrange(0, 4)):
+            parts.append(rng.choice(["global:", "local:", ""]))
+            parts += pats(rng.randrange(0, 4))
+        return "{ " + " ".join(parts) + rng.choice([" ", "", " /* e */ ", "\n# x\n"]) + "}"
+    if export_list:
+        text = rng.choice(["", " ", "# l\n"]) + "{ " + " ".join(pats(rng.randrange(0, 6))) + " };" + rng.choice(["", "\n", " x"] if rng.random() < 0.2 else ["", "\n"])
+    elif rng.random() < 0.4:
+        text = rng.choice(["", "\n", "/* h */ "]) + section() + rng.choice([";", ";\n", " ;", "", "; x"] if rng.random() < 0.3 else [";", ";\n"])
+    else:
+        names = []
+        text = ""
+        for i in range(rng.randrange(1, 5)):
+            nm = rng.choice(["V1", "V2", "VER_1", "LIB_2.0", "a"]) + (str(i) if rng.random() < 0.7 else "")
+            parent = rng.choice(names + ["", "", "NOPE", " " + (names[0] if names else "V")]) if rng.random() < 0.6 else ""
+            text += nm + rng.choice([" ", "", "\n"]) + section() + rng.choice(["", " "]) + parent + ";" + rng.choice(["", "\n", " "])
+            names.append(nm)
+    # noise
+    if rng.random() < 0.45:
+        toks = re.findall(r"\s+|[A-Za-z_.:0-9]+|.", text)
+        for _ in range(rng.choice([1, 1, 2, 3])):
+            if not toks:
+                break
+            i = rng.randrange(len(toks))
+            op = rng.random()
+            if op < 0.3:
+                del toks[i]
+            elif op < 0.7:
+                toks.insert(i, rng.choice(VS_PUNCT + VS_WORDS))
+            elif op < 0.85:
+                toks[i] = rng.choice(VS_PUNCT + VS_WORDS)
+            else:
+                toks = toks[:i]
+        text = "".join(toks)
+    return text.encode("utf-8", "surrogateescape")
+
+
 def amplified(rng, tier):
     """inputs in which one construct is repeated or nested far beyond what any real input does: the recursion depth and
     the running time of a recursive-descent parser are decided by such inputs, and byte-level mutation never builds them"""
@@ -148,7 +285,7 @@ def amplified(rng, tier):
 
 
 def run(chk, replay=None):
-    coq = coq_build(["C22"], ["C22/Props.v"])
+    coq = coq_build(["C22"], ["C22/Props.v", "C22/PropsScripts.v"])
     chk.add_coq(coq)
     okw, outw, wild = wild_build()
     okh, outh, wvh = harness_build()
@@ -197,6 +334,60 @@ def run(chk, replay=None):
                 chk.tie_break(f"correspondence C22.arguments_from_string on {t!r}: implementation {got}, model {want}", {"text": t})
     elif okm:
         chk.tie_break("model evaluation: wrong number of answers", {"items": len(texts), "answers": len(flat)})
+    # ---- version-script / export-list parsers: model vs implementation
+    nvs = 250 if chk.tier == "quick" else 2500
+    fixed = [b"{ global: foo; local: *; };", b"V1 { global: a; };\nV2 { b; } V1;", b"{ extern \"C\" { a; b }; };", b"{ extern \"C\" { a; b", b"{ extern \"C\" {", b"", b"{", b"{ };", b"{};x",
+             b"V1 { } V1;", b"V1 {};V1 {} V1;", b"#\n{ a; };", b"#", b"/*/{ a; };", b"/**/{ a; };", b"/* {a;};", b"{ a\\*b; \"x\"; \" ; * ; ?a; };", b"{ extern \"C\" { extern \"C++\" { a; }; }; };",
+             b"{ global: a }; b; };", b"{ local: * ; global: a; };", b"V { global: a; } ;", b"V { global: a; }  V;", b"{ a; } ;"]
+    vtexts = fixed + [gen_vs(rng) for _ in range(nvs)]
+    etexts = [b"{ foo; };", b"{ a; b }", b"{ a; };x", b"{};", b"{ extern \"C++\" { n::*; q }; };", b"", b"{ a"] + [gen_vs(rng, export_list=True) for _ in range(nvs // 2)]
+    if replay and "vscript_hex" in json.load(open(replay))["replay"]:
+        vtexts, etexts = [bytes.fromhex(json.load(open(replay))["replay"]["vscript_hex"])], []
+    if replay and "elist_hex" in json.load(open(replay))["replay"]:
+        vtexts, etexts = [], [bytes.fromhex(json.load(open(replay))["replay"]["elist_hex"])]
+    vimpl = run_impl(wvh, "c22", ["vs " + t.hex() for t in vtexts] + ["el " + t.hex() for t in etexts])
+    vitems = ["vs [" + "; ".join(str(b) for b in t) + "]" for t in vtexts]
+    eitems = ["el [" + "; ".join(str(b) for b in t) + "]" for t in etexts]
+    per = (len(vitems) + NCPU - 1) // NCPU or 1
+    vbodies = ["Eval vm_compute in [\n" + ";\n".join(vitems[j * per:(j + 1) * per]) + "].\n" for j in range(NCPU) if vitems[j * per:(j + 1) * per]]
+    per = (len(eitems) + NCPU - 1) // NCPU or 1
+    ebodies = ["Eval vm_compute in [\n" + ";\n".join(eitems[j * per:(j + 1) * per]) + "].\n" for j in range(NCPU) if eitems[j * per:(j + 1) * per]]
+    vflat, eflat, okv = [], [], True
+    for bodies_, dst in ((vbodies, vflat), (ebodies, eflat)):
+        for rc_, o in coq_eval_sharded("c22vs", VS_IMPORTS, bodies_, timeout=900):
+            if rc_ != 0:
+                chk.tie_break("model evaluation failed (coqc, version-script parser)", o[-1500:])
+                okv = False
+                continue
+            dst += parse_coq_value(o)
+    stats["vscript"] = {"cases": 0, "accepted": 0, "rejected": 0, "glob_dependent": 0, "versions": 0, "rust_style": 0, "extern_blocks": 0, "mismatch": 0}
+    if okv and len(vflat) == len(vtexts) and len(eflat) == len(etexts):
+        for kind, texts_, flat_, impls, rend in (("version script", vtexts, vflat, vimpl[:len(vtexts)], render_vs), ("export list", etexts, eflat, vimpl[len(vtexts):], render_el)):
+            for t, mv, im in zip(texts_, flat_, impls):
+                st = stats["vscript"]
+                st["cases"] += 1
+                key = "vscript_hex" if kind == "version script" else "elist_hex"
+                if im == "PANIC":
+                    chk.violation(f"the {kind} parser panics on {t[:80]!r}", {key: t.hex()})
+                    continue
+                want = rend(mv)
+                if want == "FUEL":
+                    chk.tie_break(f"C22.VScript: the model runs out of fuel on a {kind} (theorem parse_version_script_terminates says it cannot)", {key: t.hex()})
+                    continue
+                if im == "E glob":
+                    st["glob_dependent"] += 1
+                    continue
+                got = "E" if im.startswith("E ") else im
+                st["accepted" if got != "E" else "rejected"] += 1
+                st["versions"] += got.count("v ") if got != "E" else 0
+                st["rust_style"] += int(got.startswith("R"))
+                st["extern_blocks"] += int(b"extern" in t and got != "E")
+                if got != want:
+                    st["mismatch"] += 1
+                    stats["model_mismatch"] += 1
+                    chk.tie_break(f"correspondence C22.VScript ({kind} parser) on {t[:120]!r}: implementation {got[:300]}, model {want[:300]}", {key: t.hex()})
+    elif okv:
+        chk.tie_break("model evaluation: wrong number of answers (version-script parser)", {"items": len(vtexts) + len(etexts), "answers": len(vflat) + len(eflat)})
     # ---- the real inputs
     d = tempfile.mkdtemp(prefix="c22")
     try:
